@@ -501,6 +501,11 @@ func vstream(args []string) error {
 			default:
 				serial++
 				pad := rng.Intn(3000)
+				if serial == 40 && rr%2 == 0 {
+					// one document longer than the 10 MiB chunk buffer (its line continues for more than 10 MiB after the read
+					// that started the chunk), every second run even longer than two chunks
+					pad = 11<<20 + rng.Intn(1<<20) + (rr%4/2)*(10<<20)
+				}
 				data = append(data, '[')
 				data = strconv.AppendInt(data, int64(serial), 10)
 				data = append(data, ',', '"')
@@ -517,7 +522,7 @@ func vstream(args []string) error {
 		if rr%2 == 1 {
 			data = data[:len(data)-1] // no final newline
 		}
-		maxRead := []int{1 << 24, 1 << 16, 4096, 64 << 20}[rr%4]
+		maxRead := []int{1 << 16, 1 << 24, 4096, 64 << 20}[rr%4]
 		errAt := -1
 		if rr%3 == 2 {
 			errAt = len(data)/2 + rng.Intn(1000)
